@@ -11,11 +11,10 @@ type-safe frozen dataclass consults), `conforms` the independent specification. 
 annotation of the vocabulary (any nesting depth, either spelling), every class table and every value.
 
 Full statement `Sound_full`; proved as `sound_partial` under guards that speak about the annotation and the value at hand only:
-* `v.plain` = no NamedTuple instance anywhere in the value (`v.hasNT = false`; complement: region `namedtupleStructural`, a value
-  with `_asdict` is compared structurally, without isinstance - witness `sound_fails_namedtupleStructural`) **and** no one-shot
-  iterator anywhere in it (`v.hasIter = false`; complement: region `iteratorItemsUnchecked`, the pending items of an iterator are
-  deliberately not looked at because that would consume it (C04) - witness `sound_fails_iteratorSkip`); `plain_eq` splits the guard,
-  `sound_partial_split` states the theorem with the two exclusions as separate hypotheses;
+* `v.iterFree` = no one-shot iterator anywhere in the value (`iterFree_eq`: `= !v.hasIter`; complement: region
+  `iteratorItemsUnchecked`, the pending items of an iterator are deliberately not looked at because that would consume it (C04) -
+  witness `sound_fails_iteratorSkip`).  Since the NamedTuple repair (the annotation is a NamedTuple class: isinstance + every
+  annotated field) NamedTuple instances are ordinary values: `fixed_namedtupleStructural`;
 * `a.strAnnOk env v` - only for a top-level *string* annotation whose name the context does not bind (outside the vocabulary
   "forward references naming a class"): no class in the MRO of this value has that name.  `true` by definition for every other
   annotation, whatever the class table (`strAnnOk_of_not_str`); complement: witness `strAnn_unbound_name_accepted`.
@@ -30,27 +29,27 @@ def Sound_full : Prop :=
 
 /-- **C01.** Whatever the checker accepts conforms. -/
 theorem sound_partial (env : Env) (orc : Nat → Val → Raw) (hw : WfEnv env)
-    (a : Ann) (v : Val) (hs : a.strAnnOk env v = true) (hns : a.noSpecial = true) (hwf : v.wf env = true) (hp : v.plain = true) :
+    (a : Ann) (v : Val) (hs : a.strAnnOk env v = true) (hns : a.noSpecial = true) (hwf : v.wf env = true) (hp : v.iterFree = true) :
     checkType env orc a v = .accept → conforms env a v = true :=
   sound_checkType env orc hw a v hs hns hwf hp
 
-/-- the same with the two exclusions of `plain` named: no NamedTuple instance, no one-shot iterator (each needed: see the witnesses) -/
+/-- the same with the one exclusion left named: no one-shot iterator (NamedTuple instances are covered since the repair) -/
 theorem sound_partial_split (env : Env) (orc : Nat → Val → Raw) (hw : WfEnv env)
     (a : Ann) (v : Val) (hs : a.strAnnOk env v = true) (hns : a.noSpecial = true) (hwf : v.wf env = true)
-    (hnt : v.hasNT = false) (hit : v.hasIter = false) :
+    (hit : v.hasIter = false) :
     checkType env orc a v = .accept → conforms env a v = true :=
-  sound_partial env orc hw a v hs hns hwf (plain_of hnt hit)
+  sound_partial env orc hw a v hs hns hwf (by simp [iterFree_eq, hit])
 
 /-- for every annotation that is not a top-level string the guard is free: the theorem holds on every class table -/
 theorem sound_partial_no_str (env : Env) (orc : Nat → Val → Raw) (hw : WfEnv env)
-    (a : Ann) (v : Val) (hstr : ∀ n, a ≠ .strAnn n) (hns : a.noSpecial = true) (hwf : v.wf env = true) (hp : v.plain = true) :
+    (a : Ann) (v : Val) (hstr : ∀ n, a ≠ .strAnn n) (hns : a.noSpecial = true) (hwf : v.wf env = true) (hp : v.iterFree = true) :
     checkType env orc a v = .accept → conforms env a v = true :=
   sound_partial env orc hw a v (strAnnOk_of_not_str hstr v) hns hwf hp
 
 /-- contrapositive, as the property phrases it: a value that does not conform - in particular a conforming value
     corrupted at one arbitrarily deep position in a way that breaks conformance - is not accepted -/
 theorem corruption_rejected (env : Env) (orc : Nat → Val → Raw) (hw : WfEnv env)
-    (a : Ann) (v' : Val) (hs : a.strAnnOk env v' = true) (hns : a.noSpecial = true) (hwf : v'.wf env = true) (hp : v'.plain = true)
+    (a : Ann) (v' : Val) (hs : a.strAnnOk env v' = true) (hns : a.noSpecial = true) (hwf : v'.wf env = true) (hp : v'.iterFree = true)
     (hbad : conforms env a v' = false) : checkType env orc a v' ≠ .accept := by
   intro h
   have := sound_partial env orc hw a v' hs hns hwf hp h
@@ -60,7 +59,7 @@ theorem corruption_rejected (env : Env) (orc : Nat → Val → Raw) (hw : WfEnv 
 theorem one_bad_element_rejected (env : Env) (orc : Nat → Val → Raw) (hw : WfEnv env)
     (sp : Spell) (o : SeqOrigin) (a : Ann) (c : ClsId) (pre post : List Val) (bad : Val)
     (hns : a.noSpecial = true) (hwf : (Val.coll c (pre ++ bad :: post)).wf env = true)
-    (hp : (Val.coll c (pre ++ bad :: post)).plain = true) (hbad : conforms env a bad = false) :
+    (hp : (Val.coll c (pre ++ bad :: post)).iterFree = true) (hbad : conforms env a bad = false) :
     checkType env orc (.seq sp o a) (.coll c (pre ++ bad :: post)) ≠ .accept := by
   apply corruption_rejected env orc hw _ _ rfl (by simpa [Ann.noSpecial] using hns) hwf hp
   simp [conforms, Val.iter, hbad]
@@ -75,12 +74,16 @@ theorem strAnn_same_name_rejected :
     checkType envW (fun _ _ => .raisedOther) (.strAnn 7) (.inst 8) = .reject ∧
     conforms envW (.strAnn 7) (.inst 8) = false ∧ envW.name 8 = envW.name 7 := by decide
 
-/-- region `namedtupleStructural`: an NT2 instance is accepted for the annotation NT1 (same field names, unrelated class) -/
-theorem sound_fails_namedtupleStructural :
-    checkType envW (fun _ _ => .raisedOther) (.clsF 9 [20, 21] [.cls 2, .cls 3])
-      (.ntup 10 [20, 21] [.lit (.int 1), .lit (.str [97])]) = .accept ∧
-    conforms envW (.clsF 9 [20, 21] [.cls 2, .cls 3]) (.ntup 10 [20, 21] [.lit (.int 1), .lit (.str [97])]) = false ∧
-    (Val.ntup 10 [20, 21] [.lit (.int 1), .lit (.str [97])]).wf envW = true := by decide
+/-- (was region `namedtupleStructural`, repaired: the annotation is a NamedTuple class → isinstance + annotated fields) an NT2
+    instance (same field names, unrelated class) is rejected for the annotation NT1, an NT1 instance and an instance of a subclass
+    of NT1 are accepted, an NT1 instance with a non-conforming field value is rejected; table `envN`: 9 = NT1, 10 = NT2, 13 = Sub(NT1) -/
+theorem fixed_namedtupleStructural :
+    checkType envN (fun _ _ => .raisedOther) (.clsF 9 [20, 21] [.cls 2, .cls 3]) (.ntup 10 [20, 21] [.lit (.int 1), .lit (.str [97])]) = .reject ∧
+    conforms envN (.clsF 9 [20, 21] [.cls 2, .cls 3]) (.ntup 10 [20, 21] [.lit (.int 1), .lit (.str [97])]) = false ∧
+    checkType envN (fun _ _ => .raisedOther) (.clsF 9 [20, 21] [.cls 2, .cls 3]) (.ntup 9 [20, 21] [.lit (.int 1), .lit (.str [97])]) = .accept ∧
+    checkType envN (fun _ _ => .raisedOther) (.clsF 9 [20, 21] [.cls 2, .cls 3]) (.ntup 13 [20, 21] [.lit (.int 1), .lit (.str [97])]) = .accept ∧
+    checkType envN (fun _ _ => .raisedOther) (.clsF 9 [20, 21] [.cls 2, .cls 3]) (.ntup 9 [20, 21] [.lit (.str [120]), .lit (.str [97])]) = .reject ∧
+    (Val.ntup 10 [20, 21] [.lit (.int 1), .lit (.str [97])]).wf envN = true ∧ (Val.ntup 10 [20, 21] [.lit (.int 1), .lit (.str [97])]).iterFree = true := by decide
 
 /-- region `iteratorItemsUnchecked`: `Iterable[int]` accepts a one-shot iterator whose pending items are strings
     (`assert_value_matches_type(iter(['a', 'b']), Iterable[int], …)` returns; `@pedantic def g(xs: Iterable[int])` runs its body on
@@ -89,7 +92,8 @@ theorem sound_fails_iteratorSkip :
     checkType envI (fun _ _ => .raisedOther) (.seq .typing .iterable (.cls 2)) (.iterator 6 [.lit (.str [97]), .lit (.str [98])]) = .accept ∧
     conforms envI (.seq .typing .iterable (.cls 2)) (.iterator 6 [.lit (.str [97]), .lit (.str [98])]) = false ∧
     (Val.iterator 6 [.lit (.str [97]), .lit (.str [98])]).wf envI = true ∧
-    (Val.iterator 6 [.lit (.str [97]), .lit (.str [98])]).hasNT = false ∧ (Val.iterator 6 [.lit (.str [97]), .lit (.str [98])]).hasIter = true := by decide
+    (Val.iterator 6 [.lit (.str [97]), .lit (.str [98])]).hasNT = false ∧ (Val.iterator 6 [.lit (.str [97]), .lit (.str [98])]).hasIter = true ∧
+    (Ann.seq .typing .iterable (.cls 2)).noSpecial = true := by decide
 
 theorem envR_not_global : ¬ StrAnnGuard envR := by
   intro h
@@ -101,12 +105,12 @@ theorem envR_not_global : ¬ StrAnnGuard envR := by
 theorem strAnn_unbound_name_accepted :
     checkType envR (fun _ _ => .raisedOther) (.strAnn 3) (.lit (.str [97])) = .accept ∧
     conforms envR (.strAnn 3) (.lit (.str [97])) = false ∧ (Ann.strAnn 3).strAnnOk envR (.lit (.str [97])) = false ∧
-    (Val.lit (.str [97])).wf envR = true ∧ (Val.lit (.str [97])).plain = true := by decide
+    (Val.lit (.str [97])).wf envR = true ∧ (Val.lit (.str [97])).iterFree = true := by decide
 
 theorem Sound_full_is_false : ¬ Sound_full := by
   intro h
-  have w := sound_fails_namedtupleStructural
-  have := h envW (fun _ _ => .raisedOther) _ _ envW_wf (by decide) w.2.2 w.1
+  have w := sound_fails_iteratorSkip
+  have := h envI (fun _ _ => .raisedOther) _ _ envI_wf w.2.2.2.2.2 w.2.2.1 w.1
   simp [w.2.1] at this
 
 -- non-vacuity: the hypotheses of `sound_partial` are met by a non-trivial accepted case and by a rejected near miss
@@ -114,7 +118,7 @@ example : checkType envW (fun _ _ => .raisedOther) (.seq .typing .list (.union .
     (.coll 4 [.lit (.int 1), .lit .none]) = .accept := by decide
 example : checkType envW (fun _ _ => .raisedOther) (.tuple .pep585 [.cls 2, .cls 3])
     (.tup 5 [.lit (.int 1), .lit (.int 2)]) = .reject := by decide
-example : (Val.coll 4 [.lit (.int 1), .lit .none]).wf envW = true ∧ (Val.coll 4 [.lit (.int 1), .lit .none]).plain = true := by decide
+example : (Val.coll 4 [.lit (.int 1), .lit .none]).wf envW = true ∧ (Val.coll 4 [.lit (.int 1), .lit .none]).iterFree = true := by decide
 
 end PedVerif.Checker
 
@@ -124,7 +128,7 @@ namespace PedVerif.Checker
     does not carry the name; the conclusion is not trivial (accepted and rejected instances) -/
 example : (Ann.seq .typing .list (.union .optional [.cls 2, .cls 0])).strAnnOk envR (.coll 4 [.lit (.int 1), .lit .none]) = true ∧
     (Ann.seq .typing .list (.union .optional [.cls 2, .cls 0])).noSpecial = true ∧
-    (Val.coll 4 [.lit (.int 1), .lit .none]).wf envR = true ∧ (Val.coll 4 [.lit (.int 1), .lit .none]).plain = true ∧
+    (Val.coll 4 [.lit (.int 1), .lit .none]).wf envR = true ∧ (Val.coll 4 [.lit (.int 1), .lit .none]).iterFree = true ∧
     checkType envR (fun _ _ => .raisedOther) (.seq .typing .list (.union .optional [.cls 2, .cls 0])) (.coll 4 [.lit (.int 1), .lit .none]) = .accept := by decide
 example : (Ann.strAnn 7).strAnnOk envR (.inst 7) = true ∧ checkType envR (fun _ _ => .raisedOther) (.strAnn 7) (.inst 7) = .accept ∧
     checkType envR (fun _ _ => .raisedOther) (.strAnn 7) (.inst 8) = .reject := by decide
@@ -154,7 +158,7 @@ theorem pedantic_accepts_only_conforming (env : Env) (orc : Nat → Val → Raw)
 /-- … and a value it hands back to the caller conforms to the return annotation -/
 theorem pedantic_returns_only_conforming (env : Env) (orc : Nat → Val → Raw) (f : Fn) (args : List Val) (kw : List (NameId × Val))
     (r : Val) (hw : WfEnv env) (hmode : f.mode = .pedantic) (hfl : f.flavour ≠ .generator)
-    (a : Ann) (ha : f.retAnn = some a) (hs : a.strAnnOk env r = true) (hns : a.noSpecial = true) (hr : r.wf env = true ∧ r.plain = true)
+    (a : Ann) (ha : f.retAnn = some a) (hs : a.strAnnOk env r = true) (hns : a.noSpecial = true) (hr : r.wf env = true ∧ r.iterFree = true)
     (hret : (runCall env orc f args kw (.ret r)).caller = .ret) : conforms env a r = true :=
   result_guard env orc f args kw r hw hmode hfl a ha hs hns hr hret
 
